@@ -279,7 +279,7 @@ def judge(module, trace, tag, nchunks=None, cfg='Trace.cfg', env=None):
     if good == 0:
         raise MachineryError('empty trace %s' % trace)
     if nchunks is None:
-        nchunks = max(1, min(NCPU, os.path.getsize(trace) // (4 << 20) + 1))
+        nchunks = max(1, min(NCPU, max(os.path.getsize(trace) // (4 << 20), good // 1500) + 1))
     chunks = split_trace(trace, nchunks, tag)
     fails = []
     counts = {}
